@@ -196,6 +196,21 @@ def replay_history(prop, obj):
     r = obj["replay"]
     uni = L.Universe()
     bad = 0
+    if r.get("twin"):
+        # two solver tuples side by side (restored copy vs original / without the downsize calls), answers compared
+        for attempt in range(2):
+            f = L.run_twin(uni, r["cls"], r["cfg"], r["history"], r["twin"], r.get("cut", 0))
+            bad += bool(f)
+            if attempt == 0:
+                for d in r["history"]:
+                    print("  %s" % json.dumps(d))
+                for k, kind, why in f:
+                    print("FAILS at call %d: %s: %s" % (k, kind, why))
+        if bad == 2:
+            print("VIOLATION property=%s replay=(given)" % prop)
+            return 1
+        print("no failure on the current tree" if bad == 0 else "failure not reproducible (1 of 2 runs)")
+        return 0
     for attempt in range(2):
         fails, outs = L.run_history(uni, r["cls"], r["cfg"], r["history"])
         if attempt == 0:
